@@ -31,7 +31,9 @@ ASSUMPTIONS = [
     "disconnect, injected by wrapping aiosqlite.Connection (main task only, counted per call). An OperationalError inside "
     "complete_run_meta is compared with the model but a completed row is not demanded (the database refuses that very write); for a "
     "Ctrl-C that arrives inside the finally block (complete_run_meta / disconnect) the code the run had ended with and 130 are both "
-    "accepted as long as return value, META.json and the row agree. One fault point breaks the property on the tree as it is "
+    "accepted as long as return value, META.json and the row agree; a SECOND real SIGINT within one asyncio.run() (asyncio's "
+    "force-quit: KeyboardInterrupt raised wherever the main thread is) is not represented - when the command's own code was already "
+    "interrupted by SIGINT, the Ctrl-C at the database statement is delivered by Task.cancel(). One fault point breaks the property on the tree as it is "
     "(Ctrl-C at the INSERT of insert_run_meta: known_findings.jsonl; `Fault.bad`)",
     "the lock file: 'cannot be locked' is represented by a lock file below a missing directory / below a regular file (any "
     "OSError of open / flock takes the same `except OSError` -> exit 72); 'held by somebody else' by a second descriptor in "
